@@ -1259,6 +1259,9 @@ def oracle_one(t1, t2, opt, base_tree, base_text, rng, do_text=True, do_indep=Tr
             flags["exact_break"] = {"name": "C13_exclude_threshold_exact not observed", "case": case_dict(t1, t2, opt),
                                     "guard": g, "equation_holds": got == want}
     flags["eq_holds"] = (got == want)
+    if (not opt["zip"] and not vo and not opt.get("inc") and (opt.get("ex") or opt.get("rx")) and not opt.get("share")
+            and not set_member_hit(t1, t2, opt, spec)):
+        flags["exact_d"] = True
     if inq and got != want:
         tree_ok = False
         extra = [e[:2] for e in got if e not in want]
@@ -1406,6 +1409,13 @@ def _work(args):
                     D.coq_cfg(opt["zip"], opt["thr"]), V.to_coq(t1), V.to_coq(t2), V.to_coq(t1b), V.to_coq(t2b), core.coq_bool(same)),
                     True, case_dict(t1, t2, opt, t1b=repr(t1b), t2b=repr(t2b), theorem="C13_exclude_independent_guarded")))
                 cnt("coq_independence_hypotheses_evaluated")
+            if flags.get("exact_d") and "eq_holds" in flags:
+                gcases.append(("c13_xguard_any %s %s %s %s %s %s" % (
+                    core.coq_list(D.coq_pathc(p) for p in spec.rx_table()),
+                    core.coq_list(core.coq_pystr(s) for s in opt.get("ex", ())),
+                    D.coq_cfg(opt["zip"], opt["thr"]), V.to_coq(a), V.to_coq(b), core.coq_bool(flags["eq_holds"])),
+                    True, case_dict(t1, t2, opt, theorem="C13_exclude_threshold_exact_any_mode")))
+                cnt("coq_xguard_default_mode_evaluated:" + ("equation_holds" if flags["eq_holds"] else "equation_fails"))
             if flags.get("exact") and "eq_holds" in flags:
                 pass
             elif (opt.get("inc") and not opt.get("ex") and not opt.get("rx") and not vo and not hit and "eq_holds" in flags
